@@ -947,7 +947,8 @@ func (e *Exec) convert(f *Frame, x Value, from, to types.Type) Value {
 			switch xv := x.(type) {
 			case *Term:
 				if xv.Op != OpConst {
-					unsupported("symbolic int to float")
+					// floats are not modelled symbolically; the value is opaque and only an error if it is inspected
+					return UnknownVal{Why: "float of symbolic integer"}
 				}
 				fl, _ := new(big.Float).SetInt(xv.Val).Float64()
 				return fl
